@@ -44,6 +44,10 @@ func (p Point) id() string { return fmt.Sprintf("%s.%s[%s]#%d", p.Store, p.Op, p
 //	               (LocalBackend leaves "<path>.part" behind)
 //	      "late"   the call is applied completely, then reported as failed (fail) /
 //	               then the process dies (crash)
+//	      "commit" WriteReader only: the WHOLE byte stream is consumed (the source side
+//	               finishes without an error), then the call fails and NOTHING is left
+//	               at the destination (object-store PutObject / CompleteMultipartUpload
+//	               answering 5xx after the body was uploaded; local close/rename failing)
 //	Sticky: every call of (Store, Op) fails "before", whatever key/occurrence
 //	        (used to make the pre-migration scan fail during a whole cycle)
 type Fault struct {
@@ -84,6 +88,7 @@ const (
 	actBefore
 	actMid
 	actLate
+	actCommit
 )
 
 type decision struct {
@@ -175,6 +180,8 @@ func (c *Ctl) enter(store, op, rawKey string, mut bool) decision {
 			d.act = actMid
 		case "late":
 			d.act = actLate
+		case "commit":
+			d.act = actCommit
 		default:
 			d.act = actBefore
 			if d.crash {
@@ -231,7 +238,7 @@ func (f *FS) simple(op, key string, mut bool, run func() error) error {
 	switch d.act {
 	case actDead, actBefore:
 		return injErr(d, f.name, op, key)
-	case actMid, actLate:
+	case actMid, actLate, actCommit:
 		err := run()
 		f.ctl.after(d)
 		if err != nil {
@@ -316,6 +323,14 @@ func (f *FS) WriteReader(ctx context.Context, path string, reader io.Reader, siz
 			return err
 		}
 		return injErr(d, f.name, "WriteReader", path)
+	case actCommit:
+		// drain the stream to its clean end, store nothing, fail
+		_, derr := io.Copy(io.Discard, reader)
+		f.ctl.after(d)
+		if derr != nil {
+			return derr
+		}
+		return injErr(d, f.name, "WriteReader", path)
 	}
 	err := f.inner.WriteReader(ctx, path, reader, size)
 	f.ctl.done(d, err)
@@ -348,7 +363,7 @@ func (f *FS) ReadTo(ctx context.Context, path string, w io.Writer) error {
 			err = ie
 		}
 		return err
-	case actLate:
+	case actLate, actCommit:
 		err := f.inner.ReadTo(ctx, path, w)
 		f.ctl.after(d)
 		if err != nil {
